@@ -1145,6 +1145,33 @@ pub fn run(p: &Params) -> Run {
     // ---- stream 5: which error the result table reports: cells without a value in several columns and groups ----
     error_order_stream(&mut run, &mut Rng::new(p.seed ^ 0x04e0), p.n(400, 12_000));
     run.notes.push("stream 5 (error-order): GROUP BY statements with 2-3 transforms of different error kinds that have no value in different groups (overflow of SUM(w) * 10, division by zero in a group of two / with SUM(v) = 0, upper / abs of the wrong type, CASE over an INT), with and without HAVING: an error must be reported and no table printed; WHICH error (the first cell in column-major order) is compared with the Lean model".to_owned());
+    // ---- stream 6: how GROUP BY keys are WRITTEN must not matter ----
+    // a key written twice is the same partition (`GROUP BY v + 1, v + 1, w` ≡ `GROUP BY v + 1, w`); an alias that equals the name of
+    // ANOTHER key column does not redirect the key (`SELECT w AS v, v AS w … GROUP BY v, w` groups by the columns v, w). Oracle: the
+    // rows of the statement equal the rows of its plainly written twin (metamorphic, both through the real engine); no panic.
+    let m6 = p.n(60, 2000);
+    for _ in 0..m6 {
+        let lines = gen_typed_input(&mut rng, false);
+        let pairs: &[(&str, &str)] = &[
+            ("SELECT v + 1, w, COUNT(*) FROM t GROUP BY v + 1, v + 1, w", "SELECT v + 1, w, COUNT(*) FROM t GROUP BY v + 1, w"),
+            ("SELECT k, w, MAX(v) FROM t GROUP BY k, k, w HAVING w > -5", "SELECT k, w, MAX(v) FROM t GROUP BY k, w HAVING w > -5"),
+            ("SELECT upper(k), upper(k), v, SUM(w) FROM t GROUP BY upper(k), upper(k), v, w", "SELECT upper(k), upper(k), v, SUM(w) FROM t GROUP BY upper(k), v, w"),
+            ("SELECT w AS v, v AS w, COUNT(*) FROM t GROUP BY v, w", "SELECT w AS x1, v AS x2, COUNT(*) FROM t GROUP BY v, w"),
+            ("SELECT v AS k, COUNT(*) AS n FROM t GROUP BY k, v", "SELECT v AS x1, COUNT(*) AS n FROM t GROUP BY k, v"),
+        ];
+        let (a, b) = *rng.pick(pairs);
+        run.oracle_checks += 1;
+        let desc = format!("defs={} query={} (twin: {}) input={:?}", C04_DEF, a, b, lines);
+        match (run_engine_batch(C04_DEF, a, &lines), run_engine_batch(C04_DEF, b, &lines)) {
+            (RowsOutcome::Panic(m), _) | (_, RowsOutcome::Panic(m)) => run.fail(desc, "panic:aggregate", m),
+            (RowsOutcome::Rows { rows: ra, .. }, RowsOutcome::Rows { rows: rb, .. }) => {
+                run.count("key-spelling:rows");
+                if ra != rb { run.fail(desc, "group-key-spelling-changes-table", format!("{:?} vs the twin's {:?}", ra, rb)); }
+            }
+            (RowsOutcome::Error(ea), RowsOutcome::Error(eb)) => { run.count("key-spelling:error"); if ea != eb { run.count("key-spelling:different-errors"); } }
+            (x, y) => run.fail(desc, "group-key-spelling-changes-table", format!("one answers with a table, the twin with an error: {} / {}", match x { RowsOutcome::Error(e) => e, _ => "rows".to_owned() }, match y { RowsOutcome::Error(e) => e, _ => "rows".to_owned() })),
+        }
+    }
     run.notes.push("stream 1: free-form aggregate statements (1-4 select items mixing keys, aggregates, transforms; WHERE/GROUP BY/HAVING) over 0-30 lines with 5-80% NULL fields; stream 2: typed statements over TEXT/INT/REAL/BOOLEAN/TIMESTAMP columns with per-(group, column) NULL rates of 0/30/100%, single-row groups, p in {0, .5, .99, 1}, HAVING with hidden aggregates, arithmetic wrappers — compared with an independent reference".to_owned());
     // the end-to-end stream: the same property seen from raw texts and raw file bytes (`e2e.rs`, Lean `Pipeline.runText`)
     crate::e2e::stream(&mut run, &mut Rng::new(p.seed ^ 0xe2e04), p.n(250, 3000), "group");
